@@ -87,6 +87,13 @@ CHECKS["C09"] = dict(
     technique="bounded-exhaustive contexts x definition-site x use-site enumeration with verdicts expected by construction, positives executed",
 )
 
+CHECKS["C04"] = dict(
+    category="exploration",
+    text="Base programs: the running programs of the M0 pool (collections/tuples, functions, assignments from control flow, classes, raise/handle, control-flow nestings, ranges, expressions; thinned in the quick tier). For every base program, EVERY single-point type-changing edit of its tree is generated: each expression position replaced by a canonical expression of every other type (Int, Float, Str, Bool, None, a user class instance, a list), one argument dropped or added at every call / method call / constructor call, every use renamed to an undefined name and to a differently typed name, every method/field name changed, every function name changed, and a same-named Str definition inserted at the head of every nested block. Whenever the pipeline accepts a mutant its output is executed by CPython; the uncaught exception must not be TypeError, AttributeError, NameError or UnboundLocalError.",
+    design_ref="DESIGN.md §4 C04", note="Four unrepaired soundness holes (unchecked raise arguments, Str + anything, untyped unary/bitwise operators, unchecked parent arguments) are delimited by C04-F1..F4.",
+    technique="exhaustive single-point mutation of enumerated program trees on the real pipeline, CPython execution as oracle",
+)
+
 REASON_PENDING = "check not built yet in this session (see DESIGN.md Appendix D build order); nothing is claimed for it"
 
 
